@@ -5,14 +5,23 @@ use std::time::Duration;
 #[derive(Debug)]
 pub struct AtomicDuration(AtomicUsize);
 
+// 0 is reserved for "no timeout": a timeout is rounded up to whole milliseconds and is at least
+// 1ms, so that it never fires early and a zero or sub-millisecond timeout is not taken for "none"
+#[inline]
+fn to_millis(dur: Option<Duration>) -> usize {
+    match dur {
+        None => 0,
+        Some(d) => {
+            let ms = d.as_millis();
+            let ms = if d.subsec_nanos() % 1_000_000 != 0 { ms + 1 } else { ms };
+            std::cmp::max(ms, 1) as usize
+        }
+    }
+}
+
 impl AtomicDuration {
     pub fn new(dur: Option<Duration>) -> Self {
-        let dur = match dur {
-            None => 0,
-            Some(d) => d.as_millis() as usize,
-        };
-
-        AtomicDuration(AtomicUsize::new(dur))
+        AtomicDuration(AtomicUsize::new(to_millis(dur)))
     }
 
     #[inline]
@@ -26,12 +35,7 @@ impl AtomicDuration {
 
     #[inline]
     pub fn store(&self, dur: Option<Duration>) {
-        let timeout = match dur {
-            None => 0,
-            Some(d) => d.as_millis() as usize,
-        };
-
-        self.0.store(timeout, Ordering::Relaxed);
+        self.0.store(to_millis(dur), Ordering::Relaxed);
     }
 
     #[inline]
